@@ -15,15 +15,16 @@ set_option linter.unusedVariables false
 namespace Props.C02sys
 open Model Model.Pipeline Model.PipelineN Model.BrokerProd Lemmas.C02sys
 
-theorem proj_deliver_visible_conn_p {M : Nat} {p : Int} {sN sN' : SysN} {s : Sys} {w : Nat} {still : Bool}
+/-- the same for any VISIBLE set (the one-partition worker has a set at its bridge), also one that is empty for `p` -/
+theorem proj_deliver_visible_conn_j {M : Nat} {p : Int} {sN sN' : SysN} {s : Sys} {w : Nat} {still : Bool}
     {a : Bool} {base : Int → Nat} {sent : List Pipeline.Tok} {rest : List (List Pipeline.Tok)}
     (h : WRel (BRp p) p sN s) (hpd : (sN.wk w).pend = some (.conn a, base))
-    (hsets : (sN.wk w).bp.sets = sent :: rest) (hne : projL p sent ≠ [])
+    (hsets : (sN.wk w).bp.sets = sent :: rest) (hj : (s.wk w).bp.sets ≠ [])
     (hs : sysStepN M sN (.deliver w still) = some sN') :
     ∃ s', sysStep M s (.deliver w still) = some s' ∧ WRel (BRp p) p sN' s' := by
   obtain ⟨hid, hb, hs1, hhid, hk0, hpend⟩ := h.br w
   cases hid with
-  | true => exact absurd ((hhid rfl).2 sent (by rw [hsets]; simp)) hne
+  | true => exact absurd (by simpa using hs1) hj
   | false =>
     obtain ⟨a1, a2, a3, a4⟩ := brp_fields hb
     have hjs : (s.wk w).bp.sets = projL p sent :: rest.map (projL p) := by rw [hs1, hsets]; rfl
@@ -73,6 +74,19 @@ theorem proj_deliver_visible_conn_p {M : Nat} {p : Int} {sN sN' : SysN} {s : Sys
           simp only [setW, setWN, if_true]
           refine ⟨false, brp_mk _ _ c1 c2 c3 c4, by rw [c5, c6]; rfl, (fun e => by cases e), (fun _ => rfl), rfl⟩
         · simp only [setW, setWN, hk, if_false]; exact h.br k
+
+theorem proj_deliver_visible_conn_p {M : Nat} {p : Int} {sN sN' : SysN} {s : Sys} {w : Nat} {still : Bool}
+    {a : Bool} {base : Int → Nat} {sent : List Pipeline.Tok} {rest : List (List Pipeline.Tok)}
+    (h : WRel (BRp p) p sN s) (hpd : (sN.wk w).pend = some (.conn a, base))
+    (hsets : (sN.wk w).bp.sets = sent :: rest) (hne : projL p sent ≠ [])
+    (hs : sysStepN M sN (.deliver w still) = some sN') :
+    ∃ s', sysStep M s (.deliver w still) = some s' ∧ WRel (BRp p) p sN' s' := by
+  have hj : (s.wk w).bp.sets ≠ [] := by
+    obtain ⟨hid, _, hs1, hhid, _, _⟩ := h.br w
+    cases hid with
+    | true => exact absurd ((hhid rfl).2 sent (by rw [hsets]; simp)) hne
+    | false => rw [hs1, hsets]; simp
+  exact proj_deliver_visible_conn_j h hpd hsets hj hs
 
 /-- the last single-step statement -/
 theorem deliverVisConnProj_holds (M : Nat) (p : Int) : DeliverVisConnProj M p := by
